@@ -951,7 +951,8 @@ def _tree_setup(inst, rng):
     feats = inst["nodes"]
     cls = inst["cls"]
     alln = inst.get("allnodes") or (feats + ([cls] if cls else []))
-    vn, inv = _mk_names(alln, rng, "str" if inst["weights"] != "callable" else rng.choice(["str", "str", "int"]))
+    # (small integer column labels include the falsy label 0, which may be the root)
+    vn, inv = _mk_names(alln, rng, rng.choice(["str", "str", "smallint"]) if inst["weights"] != "callable" else rng.choice(["str", "int", "smallint"]))
     cols = shuffled([vn[v] for v in alln], rng)
     if inst["weights"] == "callable":
         rows, group_of = [], {}
